@@ -7,7 +7,7 @@ use serde::{Deserialize, Serialize};
 use serde_json::json;
 
 use super::common::*;
-use crate::engine::{chunk, Failure, Prop, Stats, Tier, F};
+use crate::engine::{chunk, guarded, Failure, Prop, Stats, Tier, F};
 use crate::gen::{self, ParamSpec, Site};
 use crate::oracle::ephem;
 
@@ -120,7 +120,7 @@ impl Prop for C01 {
                 policy: 0,
                 date,
             };
-            self.check(&c, st).map_err(|f| (c, f))
+            guarded(&c, || self.check(&c, st))
         };
         match tier {
             Tier::Quick => {
